@@ -20,6 +20,9 @@ claimed = {
  "C18": dict(level="other", text="Bounded symbolic execution of the analyzer's member tables against both runtime value libraries: exhaustive over (type kind, member), argument payloads and indices are unconstrained solver variables; the index law is asserted on SMT terms.",
              note="Subject values: int, float, bool, str (4 concrete strings), range, [int] of 0..2, {?}, {a:int}, ?int. String arguments from {\"\", \"a\", \",\"}; function-typed and var-arg parameters skipped; `repeat` counts above 16 and JSON text are outside (JSON modelled by contract). Trusted: go/ssa, gosym, z3.",
              technique="bounded symbolic execution (go/ssa) + SMT (z3) over member tables and index law", design="§2 C18"),
+ "C12": dict(level="other", text="Bounded symbolic execution of the real DeepCast (both value libraries), of cast-bearing program templates on both back ends and of the VM host boundary, against the conformance reference B.4; value/type shapes come from selectors, scalar payloads are unconstrained solver variables.",
+             note="Value/type trees of depth 1 exhaustively (quick) and depth 2 within a path budget (thorough, reported as not exhaustive when the budget ends first); object keys from {a,b}; strings/ranges/any-objects have fixed payloads; JSON text is modelled by contract; function-typed values only as 'never admitted'. Trusted: go/ssa, gosym, z3, reference cvAdmit (harness/homescript/zz_verif_cast.go).",
+             technique="bounded symbolic execution (go/ssa) + SMT (z3) vs conformance reference", design="§2 C12"),
  "C05": dict(level="other", text="Bounded symbolic execution of lexer (and parser/analyzer as they are added) with Go run-time panics and step-bound overruns as path outcomes; within the stated bounds no input makes the code panic or fail to make progress.",
              note="Currently: lexer step totality/progress on windows of K runes (quick 3 / thorough 5). Trusted: go/ssa, gosym, z3.",
              technique="bounded symbolic execution (go/ssa) + SMT (z3), panic/bound outcomes", design="§2 C05"),
